@@ -73,6 +73,9 @@ func (rn *runner) runWriter(e *RealEnd, tc *TaskCfg, t *Task) {
 		switch op.Kind {
 		case "msg", "badtype", "bigctl":
 			data := op.Pay.Bytes()
+			if op.MT == websocket.CloseMessage && op.Code != 0 {
+				data = closeBody(op.Code, op.Pay.Len)
+			}
 			r := t.Begin("WriteMessage", i)
 			r.MsgType, r.Data, r.Note, r.PayLen = op.MT, data, compNow(op.MT), len(data)
 			err := c.WriteMessage(op.MT, data)
@@ -109,6 +112,9 @@ func (rn *runner) runWriter(e *RealEnd, tc *TaskCfg, t *Task) {
 			t.End(r, err)
 		case "nw", "fragctl":
 			data := op.Pay.Bytes()
+			if op.MT == websocket.CloseMessage && op.Code != 0 {
+				data = closeBody(op.Code, op.Pay.Len)
+			}
 			r := t.Begin("NextWriter", i)
 			r.MsgType, r.Note, r.PayLen = op.MT, compNow(op.MT), len(data)
 			w, err := c.NextWriter(op.MT)
@@ -192,6 +198,8 @@ func (rn *runner) runWriter(e *RealEnd, tc *TaskCfg, t *Task) {
 		case "barrier":
 			rn.sim.AddCounter(&rn.barrier, 1)
 			t.WaitFor(&rn.barrier, op.Lvl)
+		case "waitstep":
+			rn.sim.WaitStep(t, op.Lvl)
 		case "yield":
 		}
 	}
@@ -391,3 +399,16 @@ func (s *Sim) readCounter(v *int) int {
 }
 
 var _ = bytes.Equal
+
+// closeBody is a valid close payload of exactly n bytes when n >= 2 (code +
+// ASCII reason), or empty.
+func closeBody(code, n int) []byte {
+	if n < 2 {
+		return []byte{}
+	}
+	b := websocket.FormatCloseMessage(code, "")
+	for len(b) < n {
+		b = append(b, byte('a'+len(b)%26))
+	}
+	return b
+}
